@@ -1,0 +1,110 @@
+//go:build verif
+
+package breaker
+
+// Contracts for the deductive verifier in /verif (govc). Comment-only file: adds no code.
+
+// accept: a call is rejected only when (total - 5) > 1.5 x accepts over the window returned by history(),
+// and then only by the coin; the error is ErrServiceUnavailable.
+//@ func (*googleBreaker).accept
+//@   prop C01
+//@   opaque history, TrueOnProba
+//@   requires b != nil && b.proba != nil && b.k == 1.5
+//@   let accepts = ret(b.history, 0)
+//@   let total = ret(b.history, 1)
+//@   observe Accepts = accepts
+//@   observe Total = total
+//@   observe Coin = calls(TrueOnProba) == 1 && ret(TrueOnProba)
+//@   replay breaker_accept
+//@   replay-assume 0 <= accepts && accepts <= total && total <= 60
+//@   ensures [trips-only-on-excess] total >= 0 && result != nil ==> real(total - 5) > 1.5 * real(accepts)
+//@   ensures [error-value] result != nil ==> result == ErrServiceUnavailable
+//@   ensures [only-succeeded-never-cut] total >= 0 && accepts == total ==> result == nil
+//@   ensures [aged-out-never-cut] 0 <= total && total <= 5 && accepts >= 0 ==> result == nil
+//@   ensures [coin-decides] total >= 0 && result != nil ==> calls(TrueOnProba) == 1 && ret(TrueOnProba)
+//@   ensures [drop-ratio] total >= 0 && calls(TrueOnProba) == 1 ==> arg(TrueOnProba, 1) == (real(total - 5) - 1.5 * real(accepts)) / real(total + 1) && arg(TrueOnProba, 1) > 0.0
+//@   modifies nothing
+
+// One bucket folded into the history: accepts += Sum (truncated), total += Count.
+//@ func (*googleBreaker).history$1
+//@   prop C01
+//@   requires b != nil && -9000000000000000000.0 < b.Sum && b.Sum < 9000000000000000000.0
+//@   ensures [sum-step] accepts == old(accepts) + trunc(b.Sum) && total == old(total) + b.Count
+//@   modifies accepts, total
+
+//@ func (*googleBreaker).markSuccess
+//@   prop C01
+//@   opaque Add
+//@   requires b != nil
+//@   ensures [records-success] calls(b.stat.Add, 1.0) == 1 && calls(Add) == 1
+//@ func (*googleBreaker).markFailure
+//@   prop C01
+//@   opaque Add
+//@   requires b != nil
+//@   ensures [records-failure] calls(b.stat.Add, 0.0) == 1 && calls(Add) == 1
+
+// doReq: rejected => req never runs, the fallback (if any) receives the rejection error; admitted => req runs
+// once and exactly one outcome is recorded, success iff acceptable(err); a panic of req is a failure and
+// is re-raised.
+//@ func (*googleBreaker).doReq
+//@   prop C01
+//@   may-panic req
+//@   requires b != nil && b.proba != nil && b.k == 1.5
+//@   let rejected = ret(b.accept) != nil
+//@   observe Rejected = rejected
+//@   observe HasFallback = fallback != nil
+//@   observe ReqPanics = panicked(req)
+//@   observe Acceptable = calls(acceptable) == 1 && ret(acceptable)
+//@   replay breaker_doReq
+//@   ensures [rejected-never-runs] rejected ==> calls(req) == 0 && calls(markSuccess) + calls(markFailure) == 0 && calls(acceptable) == 0
+//@   ensures [fallback-gets-unavailable] rejected && fallback != nil ==> calls(fallback, ErrServiceUnavailable) == 1 && calls(fallback) == 1 && result == ret(fallback)
+//@   ensures [no-fallback] rejected && fallback == nil ==> result == ErrServiceUnavailable
+//@   ensures [one-outcome] !rejected ==> calls(req) == 1 && calls(markSuccess) + calls(markFailure) == 1 && result == ret(req) && calls(fallback) == 0
+//@   ensures [success-iff-acceptable] !rejected ==> calls(acceptable, ret(req)) == 1 && (calls(b.markSuccess) == 1) == ret(acceptable)
+//@   panic-ensures [panic-is-failure] panicked(req) && calls(b.markFailure) == 1 && calls(markSuccess) == 0
+
+//@ func (*googleBreaker).allow
+//@   prop C01
+//@   requires b != nil && b.proba != nil && b.k == 1.5
+//@   ensures [rejected] ret(b.accept) != nil ==> result1 == ErrServiceUnavailable && result0 == nil
+//@   ensures [admitted] ret(b.accept) == nil ==> result1 == nil && typeis(result0, googlePromise) && unbox(result0, googlePromise).b == b
+//@ func (googlePromise).Accept
+//@   prop C01
+//@   requires p.b != nil
+//@   ensures [one-success] calls(p.b.markSuccess) == 1 && calls(markFailure) == 0
+//@ func (googlePromise).Reject
+//@   prop C01
+//@   requires p.b != nil
+//@   ensures [one-failure] calls(p.b.markFailure) == 1 && calls(markSuccess) == 0
+
+// The logging wrapper forwards req and fallback untouched and its acceptable-wrapper returns the caller's verdict.
+//@ func (loggedThrottle).doReq$1
+//@   prop C01
+//@   opaque add
+//@   ensures [same-verdict] calls(acceptable, err) == 1 && result == ret(acceptable)
+//@ func (loggedThrottle).doReq
+//@   prop C01
+//@   opaque Report, ProcessName, Pid, Sprintf
+//@   ensures [forwards] calls(lt.internalThrottle.doReq) == 1 && arg(lt.internalThrottle.doReq, 0) == req && arg(lt.internalThrottle.doReq, 1) == fallback
+//@   ensures [result] result == ret(lt.internalThrottle.doReq)
+
+//@ func defaultAcceptable
+//@   prop C01
+//@   ensures [nil-only] result == (err == nil)
+//@   modifies nothing
+//@ func (*circuitBreaker).Do
+//@   prop C01
+//@   requires cb != nil
+//@   ensures calls(cb.throttle.doReq) == 1 && arg(cb.throttle.doReq, 0) == req && arg(cb.throttle.doReq, 1) == nil && arg(cb.throttle.doReq, 2) == defaultAcceptable && result == ret(cb.throttle.doReq)
+//@ func (*circuitBreaker).DoWithAcceptable
+//@   prop C01
+//@   requires cb != nil
+//@   ensures calls(cb.throttle.doReq) == 1 && arg(cb.throttle.doReq, 0) == req && arg(cb.throttle.doReq, 1) == nil && arg(cb.throttle.doReq, 2) == acceptable && result == ret(cb.throttle.doReq)
+//@ func (*circuitBreaker).DoWithFallback
+//@   prop C01
+//@   requires cb != nil
+//@   ensures calls(cb.throttle.doReq) == 1 && arg(cb.throttle.doReq, 0) == req && arg(cb.throttle.doReq, 1) == fallback && arg(cb.throttle.doReq, 2) == defaultAcceptable && result == ret(cb.throttle.doReq)
+//@ func (*circuitBreaker).DoWithFallbackAcceptable
+//@   prop C01
+//@   requires cb != nil
+//@   ensures calls(cb.throttle.doReq) == 1 && arg(cb.throttle.doReq, 0) == req && arg(cb.throttle.doReq, 1) == fallback && arg(cb.throttle.doReq, 2) == acceptable && result == ret(cb.throttle.doReq)
